@@ -9,14 +9,20 @@ structure S where
   sb : HashFilter := { hosts := [], repl := [] }
   ad : HashFilter := { hosts := [], repl := [] }
   nr : HashFilter := { hosts := [], repl := [] }
-  prof : Cfg := {}
-  grp : Cfg := {}
+  profP : PCfg := {}
+  grpP : PCfg := { isClient := false }
   sw : Switches := { hasProfile := true, profOn := true, devOn := true }
   mode : Mode := .nullIP
-  ttl : Nat := 10
+  ttl : Int := 10
+  srvMode : Mode := .nullIP
+  srvTtl : Nat := 10
   ups : List ((Host × QType) × Msg) := []
 
-def host! (s : String) : Host := if s == "-" || s == "" then [] else s.splitOn "."
+/-- `agdnet.NormalizeDomain`: lower case, no trailing dot. -/
+def host! (s : String) : Host :=
+  if s == "-" || s == "" then [] else
+    let t := s.toLower
+    ((if t.endsWith "." then (t.dropEnd 1).toString else t)).splitOn "."
 def showHost (h : Host) : String := if h.isEmpty then "-" else ".".intercalate h
 def csv (s : String) : List String := if s == "-" || s == "" then [] else s.splitOn ","
 
@@ -47,13 +53,6 @@ def showId : ListId → String
   | .ytSS => "yss"
   | .newReg => "nrd"
 
-def showV : Verdict → String
-  | .none => "none"
-  | .allowed l => s!"allow {showId l}"
-  | .blocked l => s!"block {showId l}"
-  | .modReq l t => s!"modreq {showId l} {showHost t}"
-  | .modResp l rc vals => s!"modresp {showId l} {rc} {if vals.isEmpty then "-" else ",".intercalate vals}"
-
 def showRR (r : RR) : String :=
   s!"{r.typ}:{if r.up then "^" else showHost r.name}:{r.val}:{r.ttl}:{if r.up then "u" else "s"}"
 
@@ -62,19 +61,35 @@ def showMsg (m : Msg) : String :=
   let soa := match m.soa with | some t => toString t | none => "-"
   s!"{m.rcode} {a} {soa} {m.upNs}"
 
+/-- A verdict as text; a safety filter's synthesised answer is shown as the message it stands for
+under the message constructor `(m, ttl)` of the request. -/
+def showV (m : Mode) (ttl : Nat) (host : Host) (qt : QType) : Verdict → String
+  | .none => "none"
+  | .allowed l => s!"allow {showId l}"
+  | .blocked l => s!"block {showId l}"
+  | .modReq l t => s!"modreq {showId l} {showHost t}"
+  | .modResp l rc vals => s!"modresp {showId l} {rc} {if vals.isEmpty then "-" else ",".intercalate vals}"
+  | .hashResp l v4 ip => s!"modmsg {showId l} {showMsg (hashRespMsg m ttl host qt v4 ip)}"
+
 def lookupList (s : S) (name : String) : List Rule := (s.lists.lookup name).getD []
 
 def idx (name : String) : Nat := nat! (name.drop 1).toString
 
-def mkCfg (s : S) (custom lists svcs sb ad g y nr : String) : Cfg :=
-  { custom := if custom == "-" then none else some (lookupList s custom)
-    lists := (csv lists).map fun n => (idx n, lookupList s n)
-    svcs := (csv svcs).map fun n => (idx n, lookupList s n)
-    sb := if bool! sb then some s.sb else none
-    adult := if bool! ad then some s.ad else none
-    genSS := if bool! g then some (lookupList s "g") else none
-    ytSS := if bool! y then some (lookupList s "y") else none
-    newReg := if bool! nr then some s.nr else none }
+def isIdxName (pre : Char) (name : String) : Bool :=
+  name.length > 1 && name.front == pre && (name.drop 1).toString.all Char.isDigit
+
+def storageOf (s : S) : Storage :=
+  { lists := s.lists.filterMap fun p => if isIdxName 'l' p.1 then some (idx p.1, p.2) else none
+    svcs := s.lists.filterMap fun p => if isIdxName 's' p.1 then some (idx p.1, p.2) else none
+    sb := s.sb, adult := s.ad, newReg := s.nr
+    genSS := lookupList s "g", ytSS := lookupList s "y" }
+
+def serverOf (s : S) : Server := { st := storageOf s, mode := s.srvMode, ttl := s.srvTtl, grp := s.grpP }
+
+def profileOf (s : S) : Profile :=
+  { conf := s.profP, mode := s.mode, ttl := s.ttl, filteringOn := s.sw.profOn, devFilteringOn := s.sw.devOn }
+
+def whoOf (s : S) : Option Profile := if s.sw.hasProfile then some (profileOf s) else none
 
 /-- Distinct early-exit candidates among the matching rewrites of one list: more than one means the
 result depends on the engine's match order, which the model does not fix. -/
@@ -93,6 +108,18 @@ def ambigCfg (c : Cfg) (host : Host) : Bool :=
 def parseIPs (s : String) : List (Bool × String) :=
   (csv s).map fun v => (!(v.contains ':'), v)
 
+def parseMode (m v4 v6 : String) : Mode :=
+  match m with
+  | "null" => .nullIP
+  | "nx" => .nxdomain
+  | "ref" => .refused
+  | _ => .customIP (parseIPs v4) (parseIPs v6)
+
+def isIPText (s : String) : Option (Bool × String) :=
+  if s.contains ':' then some (false, s)
+  else if s.all (fun ch => ch.isDigit || ch == '.') then some (true, s)
+  else none
+
 def parseRRs (name : Host) (s : String) : List RR :=
   (csv s).filterMap fun tok =>
     match tok.splitOn "/" with
@@ -110,44 +137,50 @@ def parseAns (s : String) : List Ans :=
 def upstreamOf (s : S) (h : Host) (qt : QType) : Msg :=
   (s.ups.lookup (h, qt)).getD { rcode := 0, ans := [], soa := none }
 
-def pick (s : S) (w : String) : Cfg := if w == "p" then s.prof else s.grp
+/-- The composite filter and message constructor a `req`/`resp` line refers to: `p` = the profile's
+configuration with the profile's constructor, `g` = the group's with the server's. -/
+def pick (s : S) (w : String) : Cfg × Mode × Nat :=
+  if w == "p" then (assemble (storageOf s) s.profP, ctorOf (serverOf s) (some (profileOf s)))
+  else (assemble (storageOf s) s.grpP, s.srvMode, s.srvTtl)
 
 def step (s : S) : List String → S × String
   | ["reset"] => ({}, "ok")
   | "list" :: name :: toks =>
     ({ s with lists := (name, toks.filterMap parseRule) :: s.lists.filter (·.1 != name) }, "ok")
   | ["hp", which, repl, hosts] =>
-    let f : HashFilter := { hosts := (csv hosts).map host!, repl := host! repl }
+    let f : HashFilter := { hosts := (csv hosts).map host!, repl := host! repl, replIP := isIPText repl }
     (match which with
      | "sb" => { s with sb := f }
      | "ad" => { s with ad := f }
      | _ => { s with nr := f }, "ok")
-  | ["cfg", w, custom, lists, svcs, sb, ad, g, y, nr] =>
-    let c := mkCfg s custom lists svcs sb ad g y nr
-    (if w == "p" then { s with prof := c } else { s with grp := c }, "ok")
+  | ["pcfg", w, isClient, custOn, custom, pOn, paused, ad, g, y, svcs, rlOn, lists, sbOn, dang, nr] =>
+    let c : PCfg :=
+      { isClient := bool! isClient, customOn := bool! custOn
+        customRules := if custom == "-" then [] else lookupList s custom
+        parentalOn := bool! pOn, paused := bool! paused, adultOn := bool! ad, gssOn := bool! g, yssOn := bool! y
+        svcIds := (csv svcs).map idx, ruleListOn := bool! rlOn, listIds := (csv lists).map idx
+        sbOn := bool! sbOn, dangerousOn := bool! dang, nrdOn := bool! nr }
+    (if w == "p" then { s with profP := c } else { s with grpP := c }, "ok")
   | ["sw", a, b, c] => ({ s with sw := { hasProfile := bool! a, profOn := bool! b, devOn := bool! c } }, "ok")
-  | ["mode", m, ttl, v4, v6] =>
-    let md : Mode := match m with
-      | "null" => .nullIP
-      | "nx" => .nxdomain
-      | "ref" => .refused
-      | _ => .customIP (parseIPs v4) (parseIPs v6)
-    ({ s with mode := md, ttl := nat! ttl }, "ok")
+  | ["mode", m, ttl, v4, v6] => ({ s with mode := parseMode m v4 v6, ttl := int! ttl }, "ok")
+  | ["srv", m, ttl, v4, v6] => ({ s with srvMode := parseMode m v4 v6, srvTtl := nat! ttl }, "ok")
   | ["up", h, qt, rc, rrs, ns] =>
     let k := (host! h, nat! qt)
     let m : Msg := { rcode := nat! rc, ans := parseRRs (host! h) rrs, soa := none, upNs := nat! ns }
     ({ s with ups := (k, m) :: s.ups.filter (·.1 != k) }, "ok")
   | ["req", w, h, qt] =>
-    let c := pick s w
-    (s, showV (filterRequest c (host! h) (nat! qt)) ++ (if ambigCfg c (host! h) then " ambig" else ""))
-  | ["resp", w, answers] => (s, showV (filterResponse (pick s w) (parseAns answers)))
+    let (c, m, t) := pick s w
+    (s, showV m t (host! h) (nat! qt) (filterRequest c (host! h) (nat! qt)) ++
+      (if ambigCfg c (host! h) then " ambig" else ""))
+  | ["resp", w, answers] =>
+    let (c, m, t) := pick s w
+    (s, showV m t [] 0 (filterResponse c (parseAns answers)))
   | ["mw", h, qt] =>
-    let e : Env := { sw := s.sw, prof := s.prof, grp := s.grp, mode := s.mode, ttl := s.ttl,
-                     upstream := upstreamOf s }
-    let amb := match selectFilter s.sw s.prof s.grp with
+    let e := envOf (serverOf s) (whoOf s) (upstreamOf s)
+    let amb := match selectFilter e.sw e.prof e.grp with
       | some c => ambigCfg c (host! h)
       | none => false
-    (s, showMsg (serve e (host! h) (nat! qt)) ++ (if amb then " ambig" else ""))
+    (s, showMsg (serveReq (serverOf s) (whoOf s) (upstreamOf s) (host! h) (nat! qt)) ++ (if amb then " ambig" else ""))
   | _ => (s, "bad-op")
 
 def main : IO Unit := loop step {}
